@@ -106,3 +106,17 @@ pub fn control_a5_1_unaccounted(d: &mut Dev, i: &mut CtlInfo, skip: bool) -> Res
     }
     Ok(())
 }
+
+// ---- C15 / C01
+fn ctl_validate(name: &str) -> Result<(), Error<DevErr>> {
+    if name.is_empty() {
+        return Err(Error::InvalidFileNameLength);
+    }
+    Ok(())
+}
+/// N1 control: writes before the name is validated
+pub fn control_n1_write_before_validate(d: &mut Dev, name: &str) -> Result<(), Error<DevErr>> {
+    Write::write(d, name.as_bytes())?;
+    ctl_validate(name)?;
+    Ok(())
+}
